@@ -7,8 +7,9 @@ import Restful.Driver.Mime
 import Restful.Driver.Cors
 import Restful.Driver.Registry
 import Restful.Driver.Entity
+import Restful.Driver.Options
 namespace Restful.Driver
 
-def statelessHandlers : List (SExp → Option String) := [handleSame, handleClass, handleServe, handleResponse, handleMime, handleCors, handleRegistry, handleEntity]
+def statelessHandlers : List (SExp → Option String) := [handleSame, handleClass, handleServe, handleResponse, handleMime, handleCors, handleRegistry, handleEntity, handleAllow]
 
 end Restful.Driver
